@@ -167,3 +167,82 @@ Lemma nx_do_timeout s r : next (fst (fst (do_timeout s r))) = next s.
 Proof. unfold do_timeout. cbv zeta. nx_all. Qed.
 Lemma nx_do_expried s r : next (fst (fst (do_expried s r))) = next s.
 Proof. unfold do_expried. cbv zeta. nx_all. Qed.
+
+Lemma nx_sweep_t_slot fuel : forall s slot nowv due, next (fst (sweep_t_slot fuel s slot nowv due)) = next s.
+Proof. induction fuel as [|f IH]; intros s slot nowv due; simpl; [reflexivity|].
+  repeat nx_step; cbn [fst]; rewrite ?IH; autorewrite with nx; reflexivity. Qed.
+Lemma nx_sweep_long items : forall s b due, next (fst (sweep_long s items b due)) = next s.
+Proof. induction items as [|r t IH]; intros s b due; simpl; [reflexivity|].
+  repeat nx_step; rewrite ?IH; autorewrite with nx; reflexivity. Qed.
+Lemma nx_collect_timeouts s t nowv : next (fst (collect_timeouts s t nowv)) = next s.
+Proof. unfold collect_timeouts.
+  match goal with |- context [sweep_t_slot ?f s ?sl nowv []] => pose proof (nx_sweep_t_slot f s sl nowv []) as X; destruct (sweep_t_slot f s sl nowv []) as [s1 due] end.
+  cbn [fst] in X. destruct (aget (tlong s1) (lkey t)); [rewrite nx_sweep_long; autorewrite with nx|]; exact X. Qed.
+Lemma nx_sweep_e_slot fuel : forall s slot nowv due ev, next (fst (fst (sweep_e_slot fuel s slot nowv due ev))) = next s.
+Proof. induction fuel as [|f IH]; intros s slot nowv due ev; simpl; [reflexivity|].
+  repeat nx_step; cbn [fst]; rewrite ?IH; nx_fin. Qed.
+Lemma nx_collect_expiries s t nowv : next (fst (fst (collect_expiries s t nowv))) = next s.
+Proof. unfold collect_expiries.
+  match goal with |- context [sweep_e_slot ?f s ?sl nowv [] []] => pose proof (nx_sweep_e_slot f s sl nowv [] []) as X; destruct (sweep_e_slot f s sl nowv [] []) as [[s1 due] ev] end.
+  cbn [fst] in X. destruct (aget (elong s1) (lkey t)); [|exact X].
+  match goal with |- context [sweep_long ?s0 ?it false due] => pose proof (nx_sweep_long it s0 false due) as Y; destruct (sweep_long s0 it false due) end.
+  cbn [fst] in *. rewrite Y. autorewrite with nx. exact X. Qed.
+Lemma nx_fire_all f (Hf : forall s r, next (fst (fst (f s r))) = next s) due : forall s, next (fst (fire_all f s due)) = next s.
+Proof. induction due as [|r t IH]; intros s; simpl; [reflexivity|].
+  pose proof (nx_finish (f s r)) as X. destruct (finish (f s r)) as [s1 e1]. cbn [fst] in X.
+  specialize (IH s1). destruct (fire_all f s1 t). cbn [fst] in *. rewrite IH, X. apply Hf. Qed.
+Lemma nx_sweep_t_secs n : forall s t nowv, next (fst (sweep_t_secs n s t nowv)) = next s.
+Proof. induction n as [|n IH]; intros s t nowv; simpl; [reflexivity|].
+  pose proof (nx_collect_timeouts s t nowv) as X. destruct (collect_timeouts s t nowv) as [s1 due]. cbn [fst] in X.
+  pose proof (nx_fire_all do_timeout nx_do_timeout due s1) as Y. destruct (fire_all do_timeout s1 due) as [s2 e2]. cbn [fst] in Y.
+  specialize (IH s2 (t + 1)%Z nowv). destruct (sweep_t_secs n s2 (t + 1)%Z nowv). cbn [fst] in *. congruence. Qed.
+Lemma nx_sweep_e_secs n : forall s t nowv, next (fst (sweep_e_secs n s t nowv)) = next s.
+Proof. induction n as [|n IH]; intros s t nowv; simpl; [reflexivity|].
+  pose proof (nx_collect_expiries s t nowv) as X. destruct (collect_expiries s t nowv) as [[s1 due] e1]. cbn [fst] in X.
+  pose proof (nx_fire_all do_expried nx_do_expried due s1) as Y. destruct (fire_all do_expried s1 due) as [s2 e2]. cbn [fst] in Y.
+  specialize (IH s2 (t + 1)%Z nowv). destruct (sweep_e_secs n s2 (t + 1)%Z nowv). cbn [fst] in *. congruence. Qed.
+
+Lemma nx_new_lock s k conn c : next (fst (new_lock s k conn c)) = next s + 1.
+Proof. unfold new_lock. cbn [fst]. autorewrite with nx. reflexivity. Qed.
+
+Ltac nx_step4 :=
+  match goal with
+  | |- context [let '(_, _) := new_lock ?s ?k ?cn ?c in _] => nx_pair (new_lock s k cn c) (nx_new_lock s k cn c)
+  | _ => nx_step
+  end.
+Lemma nx_ls_tail s conn c k w : next (fst (fst (ls_tail s conn c k w))) = next s + 1.
+Proof. unfold ls_tail. cbv zeta. repeat (repeat nx_step4; nx_fin). Qed.
+Lemma nx_ls_update s conn c1 k m r l ld res c' w :
+  ls_update s conn c1 k m r l ld = (Some res, c', w) -> next (fst (fst res)) = next s.
+Proof. unfold ls_update. cbv zeta. repeat nx_step; intros E; inversion E; subst; nx_fin. Qed.
+Lemma nx_ls_relock s conn c1 k m r l ld res c' w :
+  ls_relock s conn c1 k m r l ld = (Some res, c', w) -> next (fst (fst res)) = next s.
+Proof. unfold ls_relock. cbv zeta. repeat nx_step; intros E; inversion E; subst; nx_fin. Qed.
+Lemma nx_ls_held s conn c k m res c' w : ls_held s conn c k m = (Some res, c', w) -> next (fst (fst res)) = next s.
+Proof. rewrite ls_held_eq. cbv zeta.
+  repeat match goal with
+  | |- (if ?b then _ else _) = _ -> _ => destruct b
+  | |- (match ?x with _ => _ end) = _ -> _ => destruct x
+  end; try (intros E; inversion E; subst; reflexivity); try apply nx_ls_update; try apply nx_ls_relock.
+Qed.
+Lemma nx_lock_step s conn c : next (fst (fst (lock_step s conn c))) <= next s + 1.
+Proof. rewrite lock_step_eq. cbv zeta.
+  destruct (ls_pre s conn c (c_key c)); [cbn [fst]; lia|].
+  assert (E0 : next (ls_mgr s (c_key c)) = next s) by (unfold ls_mgr; destruct (aget (mgrs s) (c_key c)); reflexivity).
+  destruct (negb (leader (ls_mgr s (c_key c))) && negb (has (c_flag c) LOCK_FLAG_FROM_AOF)).
+  - cbn [fst]. autorewrite with nx. lia.
+  - destruct (ls_held (ls_mgr s (c_key c)) conn c (c_key c) (getm (ls_mgr s (c_key c)) (c_key c))) as [[[res|] c'] w] eqn:E.
+    + rewrite (nx_ls_held _ _ _ _ _ _ _ _ E). lia.
+    + rewrite nx_ls_tail. lia.
+Qed.
+
+Theorem nx_step_le s a : core_action a = true -> next (fst (step s a)) <= next s + 1.
+Proof.
+  intros Hc. destruct a as [conn c|k| | |r ok|b]; cbn [step core_action] in *.
+  - rewrite nx_finish. destruct (c_lock c); [apply nx_lock_step|rewrite nx_unlock_step; lia].
+  - cbn [fst]. change (next (s <| now := (now s + k)%Z |>)) with (next s). lia.
+  - unfold sweep_timeouts. rewrite nx_sweep_t_secs. change (next (s <| checkT := (now s + 1)%Z |>)) with (next s). lia.
+  - unfold sweep_expiries. rewrite nx_sweep_e_secs. change (next (s <| checkE := (now s + 1)%Z |>)) with (next s). lia.
+  - discriminate.
+  - cbn [fst]. change (next (s <| leader := b |>)) with (next s). lia.
+Qed.
